@@ -28,6 +28,7 @@ def dispatch (op : String) : Option (P Verdict) :=
   | "forms" => some Drv.Lab.runForms
   | "units" => some Drv.Lab.runUnits
   | "det" => some Drv.Det.runDet
+  | "clones" => some Drv.Det.runClones
   | "hist" => some Drv.Det.runHist
   | "thr" => some Drv.Eng.runThr
   | "ht" => some Drv.Eng.runHt
